@@ -51,6 +51,10 @@ var writeGuarded = []guardedField{
 	{"walkContext", "inodesVisited", "statusMu"},
 	{"walkContext", "extractCalls", "statusMu"},
 	{"walkContext", "currentPath", "statusMu"},
+	// the baseline of the previous status line: written by the status goroutine (printStatus)
+	{"walkContext", "lastStatus", "statusMu"},
+	{"walkContext", "lastInodes", "statusMu"},
+	{"walkContext", "lastExtracts", "statusMu"},
 }
 
 func runC16(p *Prog, r *Report) {
